@@ -454,6 +454,13 @@ def text_variant_programs():
     assert text.count("size=3") == 2, text
     pr["text"] = text.replace("size=3", "size=Integer(3)")
     progs.append(pr)
+    # ... or as a Python bool / float / negative number: rejecting is fine; an accepted array has a plain non-negative size
+    for tag, spelt, n in (("array-size-given-as-a-bool", "True", 1), ("array-size-given-as-a-float", "3.0", 3), ("array-size-negative", "-2", 0)):
+        pr = targeted.prog([targeted.inp("xs", "xs", ("arr", SI, n)), targeted.inp("a", "a", SI)], [("p", "P0", "xs"), ("o", "P0", "a")], ["text-variant", tag])
+        text = surface.to_python(pr)
+        assert text.count(f"size={n})") == 1, text
+        pr["text"] = text.replace(f"size={n})", f"size={spelt})")
+        progs.append(pr)
     return progs
 
 
